@@ -63,3 +63,39 @@ package car
 //@   call[WriteHeader#0] assert header_first [C01,C15]: arg0.Version == 1 && arg0.Roots == roots && ref(arg1) == ref(w)
 //@   call[merkledag.Walk#0] assert one_visited_set_spans_all_roots [C01,C15]: ref(seen) == athead(0, ref(seen))
 //@   call[merkledag.Walk#0] assert walks_this_root [C01,C15]: arg2 == r
+
+// Root-module selective car (C15): Write and Prepare run the same traversal (fresh traverser: offset 0, empty
+// visited set, the store's loader) and differ only in the callbacks: Write emits the header and each block as
+// LdWrite(w, cid bytes, data) — the section whose size the traverser accounts with LdSize — and passes the same
+// block to every user callback; Prepare records the header and the CIDs in order; the size both return is the
+// traverser's final offset.
+
+//@ func (SelectiveCar).traverse
+//@   call[selectiveCarTraverser.traverse#0] assert fresh_traverser [C15]: arg0.offset == 0 && arg0.onCarHeader == onCarHeader && arg0.onNewCarBlock == onNewCarBlock
+
+//@ func (*selectiveCarTraverser).traverse
+//@   let herr := call[selectiveCarTraverser.traverseHeader#0]
+//@   let berr := call[selectiveCarTraverser.traverseBlocks#0]
+//@   ensures header_then_blocks [C15]: err == nil ==> herr == nil && berr == nil && result0 == sct.offset
+//@   ensures failure_reports_no_size [C15]: err != nil ==> result0 == 0
+
+//@ func (SelectiveCar).Prepare
+//@   let size, terr := call[SelectiveCar.traverse#0]
+//@   ensures size_is_the_traversal_offset [C15]: err == nil ==> terr == nil && result0.size == size && result0.header == cur(header) && result0.cids == cur(cids)
+//@   closure[0]
+//@     ensures records_the_header [C15]: result == nil && header == h
+//@   end
+//@   closure[1]
+//@     call[append#0] assert appends_this_cid [C15]: ref(arg0) == ref(cids) && len(arg1) == 1 && arg1[0] == block.BlockCID
+//@     ensures never_fails [C15]: result == nil
+//@   end
+
+//@ func (SelectiveCar).Write
+//@   closure[0]
+//@     call[WriteHeader#0] assert that_header_into_w [C15]: arg0.Version == h.Version && arg0.Roots == h.Roots && ref(arg1) == ref(w)
+//@   end
+//@   closure[1]
+//@     let werr := call[util.LdWrite#0]
+//@     call[util.LdWrite#0] assert section_is_cid_then_data [C01,C15]: ref(arg0) == ref(w) && len(arg1) == 2 && ref(arg1[1]) == ref(block.Data)
+//@     call[dynamic#0] assert user_callback_gets_the_same_block [C15]: arg0 == block && werr == nil
+//@   end
